@@ -469,3 +469,20 @@ Example ex_instance : well_formed_inst [0; 1] [ACls CInt; AGeneric SpTyping TLis
                       /\ inst_method [0; 1] {| ms_params := [ATypeVar {| tv_id := 1; tv_constraints := []; tv_bound := None; tv_contravariant := false |}; ACls CInt];
                                                ms_ret := ATypeVar {| tv_id := 0; tv_constraints := []; tv_bound := None; tv_contravariant := false |} |} = true.
 Proof. repeat split; try reflexivity. repeat constructor; simpl; intuition discriminate. Qed.
+
+(* round 6: the two input dimensions added to the streams are inside the model and the specification.
+   (a) typing.AnyStr is a TypeVar constrained to bytes / str (the harness renders descriptor 20 as the object of the typing
+       module): same class accepted (Must), str next to bytes = PedanticTypeVarMismatchException (MustNot, mismatch demanded),
+       a class outside the constraints = PedanticTypeCheckException (MustNot);
+   (b) a parameter left out of a call takes part with its DEFAULT: after a call that is consistent with the default
+       ('x', default 'n/a') the call (1, default 'n/a') is still a mismatch - whatever happened before (C07_no_leak_plain).
+   Triples per step: model outcome, verdict of the specification (1 Must / 2 MustNot), mismatch demanded. *)
+From PV Require Model.TypeVarEval.
+Example ex_anystr_history :
+  PV.Model.TypeVarEval.eval_history [(0%nat, (CUser [0%nat])); (1%nat, (CUser [1%nat])); (2%nat, (CUser [2%nat]))] ({| w_classes := []; w_funs := [{| ms_params := [(ATypeVar {| tv_id := 20%nat; tv_constraints := [CBytes; CStr]; tv_bound := None; tv_contravariant := false |}); (ATypeVar {| tv_id := 20%nat; tv_constraints := [CBytes; CStr]; tv_bound := None; tv_contravariant := false |})]; ms_ret := (ATypeVar {| tv_id := 20%nat; tv_constraints := [CBytes; CStr]; tv_bound := None; tv_contravariant := false |}) |}] |}) [SFun 0%nat [(VStr [97%nat]); (VStr [98%nat])] (VStr [97%nat; 98%nat]); SFun 0%nat [(VStr [97%nat]); (VBytes [98%nat])] (VStr [97%nat]); SFun 0%nat [(VBytes [97%nat]); (VStr [98%nat])] (VBytes [97%nat]); SFun 0%nat [(VInt 1%Z); (VInt 2%Z)] (VInt 1%Z)]
+  = [0; 1; 0;  2; 2; 1;  2; 2; 1;  1; 2; 0]%Z.
+Proof. vm_compute. reflexivity. Qed.
+Example ex_default_history :
+  PV.Model.TypeVarEval.eval_history [(0%nat, (CUser [0%nat])); (1%nat, (CUser [1%nat])); (2%nat, (CUser [2%nat]))] ({| w_classes := []; w_funs := [{| ms_params := [(ATypeVar {| tv_id := 10%nat; tv_constraints := []; tv_bound := None; tv_contravariant := false |}); (ATypeVar {| tv_id := 10%nat; tv_constraints := []; tv_bound := None; tv_contravariant := false |})]; ms_ret := (ATypeVar {| tv_id := 10%nat; tv_constraints := []; tv_bound := None; tv_contravariant := false |}) |}] |}) [SFun 0%nat [(VStr [120%nat]); (VStr [110%nat; 47%nat; 97%nat])] (VStr [120%nat]); SFun 0%nat [(VInt 1%Z); (VStr [110%nat; 47%nat; 97%nat])] (VInt 1%Z); SFun 0%nat [(VInt 1%Z); (VInt 2%Z)] (VInt 1%Z)]
+  = [0; 1; 0;  2; 2; 1;  0; 1; 0]%Z.
+Proof. vm_compute. reflexivity. Qed.
